@@ -3,7 +3,7 @@
    (a row that is not a `known:` line of known_findings.txt is a violation; the theorems of
    Proofs/TablesProofs.v fail on exactly those rows). *)
 From Coq Require Import NArith List String Bool Ascii.
-From Falco Require Import Base.TablesBase Model.ScopeMask Model.LintTables Model.LintOps Model.TablesDomain.
+From Falco Require Import Base.TablesBase Model.ScopeMask Model.LintTables Model.LintOps Model.TablesDomain Model.InterpAssign.
 From Falco Require Import Gen.LintConsts Gen.LintVars Gen.LintDyn Gen.LintFuncs Gen.RefVars Gen.RefFuncs Gen.InterpFuncs.
 From Falco Require Import Gen.ObsVars Gen.ObsFuncs Gen.ObsStmts Gen.ObsOps Gen.ObsWide.
 Import ListNotations.
@@ -73,6 +73,7 @@ Definition gaps_ops : list gap_row :=
     let model := op_bits (lint_op_model op lty) in
     let refb := op_bits (ref_assign op lty) in
     row_if "op-model" op lty (N.lxor model lint)
+    ++ row_if "op-interp-model" op lty (N.lxor (op_bits (interp_op_model op lty)) interp)
     ++ (if mem_str op assign_ops then row_if "op-ref" op lty (N.lxor lint refb) else [])
     ++ row_if "op-interp" op lty (N.ldiff lint interp) end) obs_ops.
 
